@@ -152,7 +152,7 @@ func (h *hist) checkSigning(cert, root *x509.Certificate, now time.Time, wantSer
 
 func run(c *core.Ctx) {
 	pairs := authority.Pairs()
-	nh := c.N(12, 160)
+	nh := c.N(48, 240)
 	t0 := time.Date(2025, 1, 1, 0, 0, 0, 0, time.UTC)
 	cmdCount := 0
 	for hi := 0; hi < nh; hi++ {
@@ -166,7 +166,7 @@ func run(c *core.Ctx) {
 		h := &hist{c: c, idx: hi, gname: fmt.Sprintf("history#%d %s", hi, a.Name()), a: a}
 		c.Begin(hi, h.gname, "bootstrap/rotate/wipeout", nil)
 		now := t0
-		ncmd := c.N(6, 12)
+		ncmd := c.N(8, 12)
 		var cmds []string
 		for step := 0; step < ncmd; step++ {
 			now = now.Add(time.Duration(1+r.IntN(400)) * day).Add(time.Duration(r.IntN(86400)) * time.Second)
